@@ -163,10 +163,19 @@ func (m *AppPlacementManager) PlaceApplication(app *objects.Application) error {
 		// walk up the tree if the queue does not exist
 		if queue == nil {
 			current := queueName
-			for queue == nil {
+			for queue == nil && strings.Contains(current, configs.DOT) {
 				current = current[0:strings.LastIndex(current, configs.DOT)]
 				// check if the queue exist
 				queue = m.queueFn(current)
+			}
+			// A name outside the root queue hierarchy has no existing parent and cannot be used, next rule
+			if queue == nil {
+				log.Log(log.SchedApplication).Debug("Rule returned a queue outside the root queue hierarchy",
+					zap.String("queueName", queueName),
+					zap.String("ruleName", checkRule.getName()),
+					zap.String("application", app.ApplicationID))
+				queueName = ""
+				continue
 			}
 			// Check if the user is allowed to submit to this queueName, if not next rule
 			if !queue.CheckSubmitAccess(app.GetUser()) {
